@@ -82,13 +82,14 @@ func ZZRuleCall() {
 }
 
 // ---- x [: A] <- new B; Q ----
+// The new name may re-use a live identifier: then the spawned body must take that channel (it is
+// consumed by the body) and x is bound afresh for the continuation.
 func ZZRuleCut() {
 	c := zzNewCtx()
 	x := c.genName()
 	vn.Assume(vn.Not(x.self))
-	// re-using a live identifier / the provider's name for the new channel is outside the claim
-	vn.Assume(vn.Not(c.identInG(x.idx)))
 	if c.hasShadow {
+		// a new channel called like the current provider could never be used: outside the claim
 		vn.Assume(x.idx != c.shadowIdx)
 	}
 	q := c.probe(vn.Bool())
@@ -99,54 +100,68 @@ func ZZRuleCut() {
 	if hasAnn {
 		nx.Type = A.T
 	}
+	// inside the spawned body the provider is `self` or the new name
+	provB := func(n zzN) bool { return vn.Or(n.self, n.idx == x.idx) }
 	var body Form
-	var mentioned []zzN
+	var names []zzN // every name the body mentions, in order
 	var bodyPrem bool
 	var chanT *types.ZZNode // type of the new channel
 	switch kind {
-	case 0: // fwd self u
-		u := c.genName()
-		body = NewForward(Name{IsSelf: true}, u.name())
-		mentioned = []zzN{u}
+	case 0: // fwd n u
+		n, u := c.genName(), c.genName()
+		body = NewForward(n.name(), u.name())
+		names = []zzN{n, u}
 		chanT = A
-		bodyPrem = vn.And(hasAnn, vn.And(c.inG(u), c.env.EqualNodes(A, c.typeG(u))))
-	case 1: // close self
-		body = NewClose(Name{IsSelf: true})
+		// Γ₁ must be exactly {u}: n is written `self`
+		bodyPrem = vn.And(vn.And(hasAnn, n.self), vn.And(vn.And(vn.Not(provB(u)), c.inG(u)), c.env.EqualNodes(A, c.typeG(u))))
+	case 1: // close n
+		n := c.genName()
+		body = NewClose(n.name())
+		names = []zzN{n}
 		chanT = A
-		bodyPrem = vn.And(hasAnn, zzHead(c.env.Unf(A), types.ZZUnit))
+		bodyPrem = vn.And(vn.And(hasAnn, n.self), zzHead(c.env.Unf(A), types.ZZUnit))
 	default: // f(ū)
 		sig := c.addFunction("f")
-		var names []Name
+		var args []Name
 		for i := 0; i < sig.np; i++ {
 			a := c.genName()
-			mentioned = append(mentioned, a)
-			names = append(names, a.name())
+			names = append(names, a)
+			args = append(args, a.name())
 		}
-		body = NewCall("f", names)
+		body = NewCall("f", args)
 		chanT = sig.ret
-		bodyPrem = c.argsOK(mentioned, sig.params)
+		bodyPrem = c.argsOK(names, sig.params)
 	}
 	acc, pan := c.run(NewNew(nx, body, q))
 	zzNoPanic(pan)
-	// Γ₁ = the names the body mentions: members of Γ, pairwise distinct, none of them x
+	// Γ₁ = the non-self names the body mentions: members of Γ, pairwise distinct
+	var mentioned []zzN
 	split := true
 	indep := true
-	for i, u := range mentioned {
-		split = vn.And(split, c.inG(u))
+	for i, u := range names {
+		ns := vn.Not(u.self)
+		split = vn.And(split, vn.Or(u.self, c.inG(u)))
 		for j := 0; j < i; j++ {
-			split = vn.And(split, mentioned[j].idx != u.idx)
+			split = vn.And(split, vn.Or(vn.Or(u.self, names[j].self), names[j].idx != u.idx))
 		}
-		indep = vn.And(indep, types.ZZRefDown(c.typeG(u).Mode, chanT.Mode))
+		indep = vn.And(indep, vn.Or(u.self, types.ZZRefDown(c.typeG(u).Mode, chanT.Mode)))
+		_ = ns
 	}
+	for _, u := range names {
+		mentioned = append(mentioned, u)
+	}
+	// x is fresh for the continuation: not in Γ unless the body took it
+	freshX := c.fresh(x, mentioned)
 	indepProv := types.ZZRefDown(chanT.Mode, c.prov.Mode)
-	prem := vn.And(vn.And(q.accept, split), vn.And(bodyPrem, vn.And(indep, indepProv)))
+	prem := vn.And(vn.And(q.accept, vn.And(split, freshX)), vn.And(bodyPrem, vn.And(indep, indepProv)))
 	zzVerdict(acc, prem, true)
 	if acc {
 		vn.Assert("C06.cut-body-context-at-least-channel-mode", indep)
 		vn.Assert("C06.cut-channel-at-least-provider-mode", indepProv)
 		vn.Assert("C05.cut-body-gets-exactly-its-names", vn.And(split, bodyPrem))
+		vn.Assert("C05.binder-does-not-shadow", freshX)
 	}
-	if q.called > 0 && vn.Concretize(vn.B2I(vn.And(split, bodyPrem)), 0, 1) == 1 {
+	if q.called > 0 && vn.Concretize(vn.B2I(vn.And(vn.And(split, freshX), bodyPrem)), 0, 1) == 1 {
 		zzJudgement("C05.binder-judgement", c.gammaIs(q, mentioned, []zzBind{{x, chanT}}), c.shadowUnchanged(q), c.providerIs(q, c.prov))
 	}
 }
